@@ -312,7 +312,7 @@ def t_fn(name, *args) -> T:
     args = [as_T(a) for a in args]
     a = args[0]
     if any(x.shape != () for x in args):
-        if name in ("conj", "real", "imag") and len(args) == 1:
+        if name in ("conj", "real", "imag", "abs") and len(args) == 1:
             return a.map(lambda v: sym.fn(name, v))
         raise SemError(f"{name} of non-scalar")
     if len(args) == 1:
